@@ -556,6 +556,10 @@ def gen_cloud_rain(rng, tier='quick', rollover=0.3):
         nx, ny, nz = rng.randint(1, 3), rng.randint(1, 3), rng.randint(1, 3)
         nsteps = rng.randint(1, 3)
         names = CR_FIELDS[rng.choice([3, 5])]
+        if rng.random() < 0.3:
+            # a 5-field file whose size is ALSO a whole number of 3-field steps (2 cells, 1 layer, 2 steps: 2 * 96 = 3 * 64
+            # bytes): the reader must try the 5-field layout first
+            (nx, ny), nz, nsteps, names = rng.choice([(1, 2), (2, 1)]), 1, 2, CR_FIELDS[5]
         base = u['steps'][0]
         steps = []
         for t in range(nsteps):
